@@ -36,7 +36,6 @@ V1, V2 = 0x00000001, 0x6B3343CF
 INT_CODECS = ("uint_var", "uint8", "uint16", "uint32", "uint64")
 TLS_CODECS = ("client_hello", "server_hello", "new_session_ticket", "encrypted_extensions",
               "certificate", "certificate_request", "certificate_verify", "finished")
-HEADER_ENC = ("builder_long", "builder_short", "retry", "vn")
 MSG_TYPE = {"client_hello": 1, "server_hello": 2, "new_session_ticket": 4, "encrypted_extensions": 8,
             "certificate": 11, "certificate_request": 13, "certificate_verify": 15, "finished": 20}
 TYPE_NAME = {"INITIAL": "initial", "ZERO_RTT": "0rtt", "HANDSHAKE": "handshake", "RETRY": "retry",
@@ -605,7 +604,6 @@ def tlc_cases(check):
 
 
 INT_POOL = [0, 1, 63, 64, 16383, 16384, 2 ** 30 - 1, 2 ** 30, 2 ** 62 - 1]
-TP_NAMES = None
 
 
 def tp_value(pid, rnd):
@@ -849,6 +847,13 @@ def length_lies(rnd):
             for name, exts in variants:
                 msg = bytes.fromhex(PREFIX[codec]) + len(exts).to_bytes(2, "big") + exts
                 out.append((codec, "ext-length-" + name, fix_frame(codec, b"\x00\x00\x00\x00" + msg)))
+    # text fields that are not ASCII; an ALPN extension without a protocol name
+    for codec, exts in (("client_hello", ext_bytes(0, 8, bytes.fromhex("0006000003") + b"a\xffb")),
+                        ("client_hello", ext_bytes(16, 5, bytes.fromhex("000302") + b"\xc3\xa9")),
+                        ("encrypted_extensions", ext_bytes(16, 2, bytes.fromhex("0000"))),
+                        ("encrypted_extensions", ext_bytes(16, 5, bytes.fromhex("000302") + b"\xc3\xa9"))):
+        msg = bytes.fromhex(PREFIX[codec]) + len(exts).to_bytes(2, "big") + exts
+        out.append((codec, "ext-length-text", fix_frame(codec, b"\x00\x00\x00\x00" + msg)))
     return out
 
 
@@ -858,7 +863,7 @@ def dec_rows(check, rnd, enc_rows):
         if r["out"] == "ok" and len(r["b"]) <= 160:
             seeds.setdefault(family(r["codec"])[3], []).append((bytes(r["b"]), r["arg"]["hcl"]))
     rows, kinds = [], []
-    per = 400 if check.quick else 4000
+    per = 300 if check.quick else 4000
     for codec in sorted(seeds):
         pool = seeds[codec]
         n = per * (3 if codec in ("header", "tp", "ack") else 1)
@@ -876,7 +881,7 @@ def dec_rows(check, rnd, enc_rows):
             kinds.append(kind)
     # arbitrary byte strings
     for codec in list(INT_CODECS) + ["ack", "tp", "header"] + list(TLS_CODECS):
-        for _ in range(150 if check.quick else 1500):
+        for _ in range(120 if check.quick else 1500):
             m = rnd.randbytes(rnd.choice([0, 1, 2, 3, 5, 8, 13, 24, 40]))
             if codec in TLS_CODECS:
                 m = fix_frame(codec, m)
@@ -905,12 +910,20 @@ def signature(row, clause):
     return "%s:%s" % (clause, row["codec"])
 
 
-def judge(check, rows, name):
-    wire = [{k: v for k, v in r.items() if k != "fn"} for r in rows]
+def judge(check, rows, name, probes=()):
+    """TLC judges every row.  `probes` are (row, clause) pairs: good rows with one
+    recorded field corrupted, which TLC has to reject with that clause (binding
+    demonstration); they are never reported."""
+    allrows = list(rows) + [p for p, _ in probes]
+    wire = [{k: v for k, v in r.items() if k != "fn"} for r in allrows]
     fails = trace.validate(check, "TraceCodec", wire, constants=TRACE_CONSTANTS, name=name,
                            shards=max(1, min(8, len(wire) // 2500)))
     check.cov["traces_validated_against_impl"] += len(rows)
+    caught = {}
     for i, clause in fails:
+        if i >= len(rows):
+            caught[i - len(rows)] = clause
+            continue
         row = rows[i]
         sig = signature(row, clause)
         detail = {"clause": clause, "inputs": inputs(row), "observed": {k: row[k] for k in
@@ -921,7 +934,35 @@ def judge(check, rows, name):
             check.drift(sig, detail)
         else:
             check.violation(sig, detail)
+    for k, (_, want) in enumerate(probes):
+        if caught.get(k) != want:
+            raise MachineryError("binding demonstration failed: corrupted row %d judged %r, expected %r"
+                                 % (k, caught.get(k), want))
+    if probes:
+        check.cov["binding_demonstration"] = ["corrupted %s row rejected with clause %s" % (p["codec"], w) for p, w in probes]
     return fails
+
+
+def corrupted(enc, dec):
+    """Good rows with one recorded field changed; TLC must reject each."""
+    import copy
+    out = []
+    r = copy.deepcopy(next(x for x in enc if x["codec"] == "ack" and x["out"] == "ok" and len(x["val"]["ranges"]) > 1))
+    r["b"][-1] ^= 1
+    out.append((r, "bytes-differ-from-independent-encoder"))
+    r = copy.deepcopy(next(x for x in enc if x["codec"] == "uint_var" and x["out"] == "ok" and x["dout"] == "ok"))
+    r["dec"] = big(unbig(r["dec"]) + 1)
+    out.append((r, "round-trip:value"))
+    r = copy.deepcopy(next(x for x in dec if x["codec"] == "tp" and x["out"] == "ok" and len(x["val"]) > 1))
+    r["val"] = r["val"][:-1]
+    out.append((r, "decode-value"))
+    r = copy.deepcopy(next(x for x in dec if x["codec"] == "header" and x["out"] == "ok"))
+    r["used"] += 1
+    out.append((r, "decode-consumed"))
+    r = copy.deepcopy(next(x for x in dec if x["codec"] == "finished" and x["out"] == "ok" and x["reout"] == "ok"))
+    r["re"] = r["re"] + [0]
+    out.append((r, "reencode:bytes-differ-from-independent-encoder"))
+    return out
 
 
 def replay(check):
@@ -961,7 +1002,7 @@ def run(check):
         check.count(("enc", r["codec"], json.dumps(r["val"]), json.dumps(r["arg"], sort_keys=True)), nontrivial=True)
     # (V)
     dec, kinds = dec_rows(check, rnd, enc)
-    judge(check, enc + dec, "TraceCodec_RV")
+    judge(check, enc + dec, "TraceCodec_RV", probes=corrupted(enc, dec))
     accepted = 0
     for r, kind in zip(dec, kinds):
         ok = r["out"] == "ok"
